@@ -276,9 +276,16 @@ func (wa *writeAnalyzer) call(c *ssa.CallCommon, w *WriteSet, fn *ssa.Function) 
 			w.union(wa.ofFunction(mc.Fn.(*ssa.Function)))
 			return
 		}
+		if f, ok := staticFnOrigin[c.Value]; ok {
+			w.union(wa.ofFunction(f))
+			return
+		}
 		w.setAll("call through function value in " + fn.String())
 	}
 }
+
+// staticFnOrigin: function literals without free variables stored in a local and called through it
+var staticFnOrigin = map[ssa.Value]*ssa.Function{}
 
 // closureOrigin finds the MakeClosure feeding a call through a local variable, when unique.
 func closureOrigin(v ssa.Value) *ssa.MakeClosure {
@@ -296,11 +303,15 @@ func closureOrigin(v ssa.Value) *ssa.MakeClosure {
 						if mc, ok := st.Val.(*ssa.MakeClosure); ok {
 							found = mc
 						}
+						if f, ok := st.Val.(*ssa.Function); ok {
+							staticFnOrigin[v] = f
+						}
 					}
 				}
 				if n == 1 {
 					return found
 				}
+				delete(staticFnOrigin, v)
 			}
 		}
 	}
